@@ -1,6 +1,7 @@
 (* Property C09: pattern matching binds exactly what construction would produce.
    The reference semantics of patterns is Eval/Interp.v bind_pat (names, _, literal/(expr) patterns,
-   array / tuple / dict / set patterns with ...rest and ?:fallbacks, nested to any depth).
+   (e1, e2, ..) alternatives, array / tuple / dict / set patterns with ...rest and ?:fallbacks, nested to
+   any depth).
 
    GENERAL THEOREM (second half of this file, Proofs/PatGenP.v): for every pattern without a
    conditional-accessor item (`x?:d`, Unspec in the model - the side condition [pat_nofb]), every nesting
@@ -8,8 +9,8 @@
      the match succeeds with bindings equivalent to s   <->
      p read as an expression under s rebuilds v  /\  s binds exactly the names of p
    ([C09_match_iff_rebuilds]; [rebuilds] is Eval/Rebuild.v: names -> s(name), _ -> any value,
-   literal/(expr) -> its value, array/tuple/dict/set patterns -> the constructor over the rebuilt
-   components, ...rest -> splice; repeated names are consistent because s is one assignment).  The fuel
+   literal/(expr) -> its value, (e1, e2, ..) -> the value of one alternative, array/tuple/dict/set
+   patterns -> the constructor over the rebuilt components, ...rest -> splice; repeated names are consistent because s is one assignment).  The fuel
    only has to be large enough ([C09_match_fuel_stable], from Proofs/FuelP.v).  Corollaries: matching is a
    function of pattern and value, the rebuilding assignment is unique, enumeration order of set members
    is irrelevant; a let / parameter / cond arm yields a value only through bindings that rebuild, an arm
@@ -302,4 +303,17 @@ Example C09_nested_near_miss :
 Proof.
   assert (H : bind_pat 60 [] ex_pat (D (ex_val 2)) = Err) by (vm_compute; reflexivity).
   split; [exact H|]. exact (C09_match_error_means_not_rebuildable ex_pat _ _ _ eq_refl H).
+Qed.
+
+(* (e1, e2, ..) patterns (rel/pattern_expr.go ExprsPattern): (1, 2) matches 2 and not 3 *)
+Example C09_alternatives_example :
+  bind_pat 10 [] (PExprs [ELit (vint 1); ELit (vint 2)]) (D (vint 2)) = Ok [] /\
+  rebuilds [] [] (PExprs [ELit (vint 1); ELit (vint 2)]) (D (vint 2)) /\
+  forall s, ~ rebuilds [] s (PExprs [ELit (vint 1); ELit (vint 2)]) (D (vint 3)).
+Proof.
+  assert (H : bind_pat 10 [] (PExprs [ELit (vint 1); ELit (vint 2)]) (D (vint 2)) = Ok []) by (vm_compute; reflexivity).
+  split; [exact H|]. split.
+  - exact (proj1 (C09_match_rebuilds (PExprs [ELit (vint 1); ELit (vint 2)]) _ _ _ _ eq_refl H)).
+  - apply (C09_match_error_means_not_rebuildable (PExprs [ELit (vint 1); ELit (vint 2)]) [] (D (vint 3)) 10 eq_refl).
+    vm_compute. reflexivity.
 Qed.
